@@ -33,3 +33,6 @@ pub const GET_BLOCKS_PROOF_LIMIT: usize = 1000;
 pub const GET_TRANSACTIONS_PROOF_LIMIT: usize = 1000;
 // Copy from ckb/sync
 pub const CHECK_POINT_INTERVAL: BlockNumber = 2000;
+
+#[cfg(nervosnetwork_ckb_light_client_verif)]
+pub(crate) use filter::verif_exports as filter_verif_exports;
